@@ -8,3 +8,76 @@ package standard
 //@ // C17: lock discipline.
 //@ type Service
 //@   guarded_by slotDataRecordsMu: slotDataRecords
+//@   // established by New (parseAndCheckParameters rejects nil for these; the record map is made there)
+//@   valid self.chainTimeService != nil && self.syncCommitteeAggregator != nil && self.beaconBlockRootProvider != nil && self.syncCommitteeMessagesSubmitter != nil && self.syncCommitteeSelectionSigner != nil && self.syncCommitteeRootSigner != nil && self.slotDataRecords != nil
+//@   // spec constants of a real chain (read from the node's spec by New): at least one subnet, one target aggregator
+//@   // and one committee position per subnet
+//@   valid self.syncCommitteeSubnetCount > 0 && self.targetAggregatorsPerSyncCommittee > 0 && self.syncCommitteeSize >= self.syncCommitteeSubnetCount
+//@
+//@ // ---- C15: one message per committee member with a signature, over the head root obtained for the slot ----
+//@ spec func headRoot() phase0.Root
+//@ spec func rootErr() error
+//@ spec func signErr() error
+//@ spec func epochOfSlot(slot phase0.Slot) phase0.Epoch
+//@
+//@ func (*Service).Message
+//@   requires duty != nil && nolocks()
+//@   assumes call BeaconBlockRoot#1 (r, err): err == rootErr() && (err == nil ==> r != nil && r.Data != nil && deref(r.Data) == headRoot())
+//@   assumes call SlotToEpoch (e): e == epochOfSlot(arg0)
+//@   assumes call SignSyncCommitteeRoots#1 (sgs, err): err == signErr() && (err == nil ==> len(sgs) == len(arg1))
+//@   // signed over the head root obtained for this slot, in the epoch of this slot
+//@   at call SignSyncCommitteeRoots#1: assert arg3 == headRoot() && arg2 == epochOfSlot(duty.slot)
+//@   // every message is for the duty's slot, over that root, for the validator at that position with its signature
+//@   at call append#1: assert msg.Slot == duty.slot && msg.BeaconBlockRoot == headRoot() && msg.ValidatorIndex == validatorIndices[i#2] && msg.Signature == sigs[i#2] && !iszero(sigs[i#2]) && !isnil(accounts[i#2])
+//@   // where the message of member i went
+//@   ghost pos (Array Int Int) = empty
+//@   at call append#1: ghost pos[i#2] = len(msgs)
+//@   loop 1
+//@     invariant len(accounts) == len(validatorIndices) && countActive >= 0
+//@   loop 2
+//@     invariant -1 <= rangeindex#2 && rangeindex#2 < len(accounts) && len(sigs) == len(accounts) && len(accounts) == len(validatorIndices)
+//@     invariant forall m int :: 0 <= m && m < len(msgs) ==> msgs[m] != nil
+//@     invariant forall j int {pos[j]} :: 0 <= j && j <= rangeindex#2 && !isnil(accounts[j]) && !iszero(sigs[j]) ==> 0 <= pos[j] && pos[j] < len(msgs) && msgs[pos[j]].ValidatorIndex == validatorIndices[j]
+//@   // a member without account or signature does not suppress the others: whenever the root was obtained and the
+//@   // signing call succeeded, every member with an account and a signature has its message in what is submitted
+//@   at call SubmitSyncCommitteeMessages#1: assert forall j int {pos[j]} :: 0 <= j && j < len(accounts) && !isnil(accounts[j]) && !iszero(sigs[j]) ==> 0 <= pos[j] && pos[j] < len(arg1) && arg1[pos[j]].ValidatorIndex == validatorIndices[j]
+//@   ensures rootErr() == nil && signErr() == nil && countActive > 0 ==> calls(SubmitSyncCommitteeMessages) == 1
+//@
+//@ // ---- C15: contribution aggregators are selected per subcommittee by the specification's rule ----
+//@ // is_sync_committee_aggregator: the first eight bytes (little endian) of sha256(selection proof), modulo
+//@ // max(1, SYNC_COMMITTEE_SIZE / SYNC_COMMITTEE_SUBNET_COUNT / TARGET_AGGREGATORS_PER_SYNC_SUBCOMMITTEE), is zero
+//@ spec func selHash(sig phase0.BLSSignature) uint64
+//@ spec func selectionProof(account e2wtypes.Account, slot phase0.Slot, subcommittee uint64) phase0.BLSSignature
+//@ spec func aggModulo(size uint64, subnets uint64, target uint64) uint64 = max(1, size / subnets / target)
+//@
+//@ func (*Service).getAggregatorsSignatureData
+//@   requires len(validatorIndices) == len(accounts) && len(subcommitteeIndices) == len(accounts)
+//@   assumes call SignSyncCommitteeSelections#1 (sgs, err): err == nil ==> len(sgs) == len(arg1) && (forall k int :: 0 <= k && k < len(sgs) ==> sgs[k] == selectionProof(arg1[k], arg2, arg3[k]))
+//@   // assumed: what is hashed is the selection proof (the data flow through the hash object is not modelled)
+//@   assumes call Uint64#1 (v): v == selHash(signature)
+//@   // only the selected ones are returned, each with its validator, subcommittee and proof
+//@   at call append#1: assert selHash(signature) % aggModulo(s.syncCommitteeSize, s.syncCommitteeSubnetCount, s.targetAggregatorsPerSyncCommittee) == 0 && res.ValidatorIndex == validatorIndices[i] && res.Subcommittee == subcommitteeIndices[i] && res.Signature == signature && signature == sigs[i]
+//@   // and every selected one is returned
+//@   ghost pos (Array Int Int) = empty
+//@   at call append#1: ghost pos[i] = len(aggregatorSignaturesData)
+//@   loop 1
+//@     invariant -1 <= rangeindex && rangeindex < len(sigs) && len(sigs) == len(accounts) && modulo == aggModulo(s.syncCommitteeSize, s.syncCommitteeSubnetCount, s.targetAggregatorsPerSyncCommittee)
+//@     invariant forall k int :: 0 <= k && k < len(sigs) ==> sigs[k] == selectionProof(accounts[k], slot, subcommitteeIndices[k])
+//@     invariant forall j int {pos[j]} :: 0 <= j && j <= rangeindex && selHash(sigs[j]) % modulo == 0 ==> 0 <= pos[j] && pos[j] < len(aggregatorSignaturesData) && aggregatorSignaturesData[pos[j]].ValidatorIndex == validatorIndices[j] && aggregatorSignaturesData[pos[j]].Subcommittee == subcommitteeIndices[j] && aggregatorSignaturesData[pos[j]].Signature == sigs[j]
+//@   ensures result1 == nil ==> forall j int {pos[j]} :: 0 <= j && j < len(accounts) && selHash(selectionProof(accounts[j], slot, subcommitteeIndices[j])) % aggModulo(s.syncCommitteeSize, s.syncCommitteeSubnetCount, s.targetAggregatorsPerSyncCommittee) == 0 ==> 0 <= pos[j] && pos[j] < len(result0) && result0[pos[j]].ValidatorIndex == validatorIndices[j] && result0[pos[j]].Subcommittee == subcommitteeIndices[j] && result0[pos[j]].Signature == selectionProof(accounts[j], slot, subcommitteeIndices[j])
+//@   modifies nothing
+//@
+//@ // the standard library's SHA-256: a hash object is returned, and a sum appended to nothing has 32 bytes
+//@ extern crypto/sha256.New
+//@   ensures !isnil(result)
+//@ extern (hash.Hash).Sum
+//@   ensures len(result) >= 32
+//@
+//@ func (*Service).Prepare
+//@   requires aggMapsOK(duty)
+//@   loop 1
+//@     invariant len(accounts) == len(validatorIndices) && len(subcommittees) == len(validatorIndices)
+//@   loop 2
+//@     invariant len(accounts) == len(validatorIndices) && len(subcommittees) == len(validatorIndices)
+//@   loop 3
+//@     invariant aggMapsOK(duty)
